@@ -36,7 +36,7 @@ type vmGinApp struct{ e *gin.Engine }
 func (a *vmGinApp) serve(rq *vmReq) (status int, escaped bool) {
 	rec := httptest.NewRecorder()
 	req := httptest.NewRequest(http.MethodGet, "/"+rq.down, nil)
-	req = req.WithContext(vmWith(req.Context(), rq))
+	req = req.WithContext(rq.ctx(req.Context()))
 	func() {
 		defer func() {
 			if v := recover(); v != nil {
